@@ -414,6 +414,7 @@ impl VirtualSystem {
         if path.to_bytes().is_empty() {
             return Err(Errno::ENOENT);
         }
+        let has_trailing_slash = path.to_bytes().ends_with(b"/");
 
         let mut path = self
             .resolve_relative_path(Path::new(UnixStr::from_bytes(path.to_bytes())))
@@ -463,6 +464,11 @@ impl VirtualSystem {
                 inode
             }
             Err(Errno::ENOENT) if flags.contains(OpenFlag::Create) => {
+                // A pathname with a trailing slash names a directory, which
+                // `open` cannot create.
+                if has_trailing_slash {
+                    return Err(Errno::EISDIR);
+                }
                 let mut inode = Inode::new([]);
                 inode.permissions = mode.difference(umask);
                 let inode = Rc::new(RefCell::new(inode));
